@@ -174,5 +174,37 @@ def separable (p : Poly) (xs : List Int) : Bool := p.rows.any (fun r => !decide 
 def ineqSep (p : Poly) (pts : List (List Int)) : List Bool :=
   p.rows.map (fun r => pts.any (fun xs => !decide (rowSat r xs)))
 
+/-- a vector, a matrix of points, or a stack of matrices -/
+inductive Points where
+  | d1 (x : List Int)
+  | d2 (xs : List (List Int))
+  | d3 (xss : List (List (List Int)))
+deriving Repr
+
+/-- output shapes follow the input shape -/
+inductive Out where
+  | b (v : Bool)
+  | v (l : List Bool)
+  | m (l : List (List Bool))
+deriving Repr, DecidableEq
+
+/-- `ineqs_satisfied` -/
+def ineqsSatisfied (p : Poly) : Points → Out
+  | .d1 x => .b (satisfied p x)
+  | .d2 xs => .v (xs.map (satisfied p))
+  | .d3 xss => .m (xss.map (fun xs => xs.map (satisfied p)))
+
+/-- `separable` -/
+def separableP (p : Poly) : Points → Out
+  | .d1 x => .b (separable p x)
+  | .d2 xs => .v (xs.map (separable p))
+  | .d3 xss => .m (xss.map (fun xs => xs.map (separable p)))
+
+/-- `ineq_separate_points`: per row; a single point is a group of one -/
+def ineqSeparatePoints (p : Poly) : Points → Out
+  | .d1 x => .v (ineqSep p [x])
+  | .d2 xs => .v (ineqSep p xs)
+  | .d3 xss => .m (xss.map (ineqSep p))
+
 end Poly
 end Puan
